@@ -664,3 +664,7 @@ impl<'a> Iterator for SerializedValuesIterator<'a> {
 #[cfg(test)]
 #[path = "row_tests.rs"]
 pub(crate) mod tests;
+
+// Verification hook (inert unless built by `cargo kani`, which sets --cfg kani).
+#[cfg(kani)]
+mod verif_kani;
